@@ -365,11 +365,11 @@ example : NumU bracketTree = true ∧ noIsGen bracketTree = true ∧ (build brac
     value, CAST interpreted as the identity): 3 gives COALESCE(3, 3 + 7) = 3 by the first
     branch, -4 gives the CAST of the subquery by the second, NULL reaches the third branch
     (`b IS NULL`) whose simple CASE matches nothing and has no ELSE: NULL -/
-example : @evalNumU ⟨fun _ _ => .null, fun _ v => v⟩ (fun _ => .int 3) .sqlite bracketTree = .int 3 := by
+example : @evalNumU ⟨fun _ _ => .null, fun _ v => v, fun _ _ => .null⟩ (fun _ => .int 3) .sqlite bracketTree = .int 3 := by
   decide +kernel
-example : @evalNumU ⟨fun _ _ => .null, fun _ v => v⟩ (fun _ => .int (-4)) .sqlite bracketTree = .int (-4) := by
+example : @evalNumU ⟨fun _ _ => .null, fun _ v => v, fun _ _ => .null⟩ (fun _ => .int (-4)) .sqlite bracketTree = .int (-4) := by
   decide +kernel
-example : @evalNumU ⟨fun _ _ => .null, fun _ v => v⟩ (fun _ => .null) .sqlite bracketTree = .null := by
+example : @evalNumU ⟨fun _ _ => .null, fun _ v => v, fun _ _ => .null⟩ (fun _ => .null) .sqlite bracketTree = .null := by
   decide +kernel
 
 /-- the constructors establish the hypothesis `WG` (and stay in the fragment):
@@ -430,6 +430,27 @@ def renderU (d : Dialect) (u : U) : G :=
   match build u with
   | some e => render d true e
   | none => G.atom ⟨"", .other⟩
+
+/-- non-vacuity for the divisions: `(a + b) / (c // (a * 2)) - a / b / 0.5` is in the fragment
+    and builds; on SQLite the true divisions are spelled `x / (y + 0.0)`, the integer floor
+    division is a plain `/`, and the text is read back as the intended tree -/
+def divTree : U :=
+  .bin .sub
+    (.bin .truediv (.bin .add (.col "a" .int) (.col "b" .int))
+      (.bin .floordiv (.col "c" .int) (.bin .mul (.col "a" .int) (.li 2))))
+    (.bin .truediv (.bin .truediv (.col "a" .int) (.col "b" .int)) (.ln "0.5"))
+
+example : NumU divTree = true ∧ noIsGen divTree = true ∧ (build divTree).isSome = true := by
+  decide +kernel
+
+example :
+    (parse sqlite (renderU .sqlite divTree).print).map G.skel = some (renderU .sqlite divTree).norm.skel ∧
+    (renderU .sqlite divTree).skel =
+      .inf .minus
+        (.inf .slash (.inf .plus .leaf .leaf)
+          (.inf .plus (.inf .slash .leaf (.inf .star .leaf .leaf)) .leaf))
+        (.inf .slash (.inf .slash .leaf (.inf .plus .leaf .leaf)) (.inf .plus .leaf .leaf)) := by
+  decide +kernel
 
 /-- **sqlite_concat_counterexample** (F1): `(1 + 2) || '3'` is emitted without parentheses and
     the SQLite grammar reads the text as `1 + (2 || '3')`.  Replayed on the real code and the
